@@ -5,6 +5,7 @@
 -/
 import Proofs.C06_Aux
 import Proofs.C06_Observe
+import Proofs.C06_Scaled
 
 namespace Atomman.C06
 set_option linter.unusedSimpArgs false
@@ -124,6 +125,16 @@ theorem inv_run {κ : Nat → String} {s : State} (h : InvK κ s) (hb : Boundary
     rw [post_bind_getS]
     apply post_map_good
     exact Post.mono (inv_propGetAtoms h _ ix) (fun _ _ hq => hq.1)
+  | sysPropGetScaled i k ix =>
+    apply post_map_good
+    exact Post.mono (sysPropGetScaled_post i k ix s) (fun _ _ he => good_of_eq h he)
+  | sysPropGetAtomsScaled i ix =>
+    apply post_map_good
+    exact inv_sysPropGetAtomsScaled h i ix
+  | sysDeepcopy i =>
+    apply post_map_good
+    simp only [Op.idsOk, decide_eq_true_eq] at hids
+    exact inv_sysDeepcopy h i hids
   | sysPropSet i k ix v scale =>
     show Post (getS >>= _) s _
     rw [post_bind_getS]
@@ -936,6 +947,90 @@ theorem system_ops_delegate (off : Bool) (s : State) (i : Nat) (k : String) (ix 
   · exact key (setItem (s.sys i).atoms jx src) (fun _ => Out.unit) s
   · exact key (setItem (s.sys i).atoms jx (s.sys src).atoms) (fun _ => Out.unit) s
 
+/-! ## scaled reads (`System.atoms_prop(…, scale=True)` without value) and `copy.deepcopy(system)` -/
+
+/-- **reads do not write (`atoms_prop(key, index, scale=True)`)** — in ANY state, whatever the index form, whether
+    the call returns or raises, the step leaves heap, objects and systems literally unchanged, and a returned value
+    is the exact box-relative image (`Box.cartToRel`, row by row) of what `prop(key, index)` returns. -/
+theorem sysPropGetScaled_reads_only (off : Bool) (s : State) (i : Nat) (k : String) (ix : Option Index) :
+    (stepWith off s (.sysPropGetScaled i k ix)).2 = s ∧
+    ∀ v', (sysPropGetScaled i k ix s).1 = .ok v' →
+      ∃ v, (propGet (s.sys i).atoms k ix s).1 = .ok v ∧ cartToRelVal (s.sys i).box v = .ok v' ∧
+        v'.shape = v.shape := by
+  refine ⟨?_, ?_⟩
+  · rcases stepWith_state off s (.sysPropGetScaled i k ix) with he | ⟨_, he⟩
+    · exact he
+    · rw [he]
+      have h1 := sysPropGetScaled_post i k ix s
+      unfold Post at h1
+      show (M.bind (sysPropGetScaled i k ix) (fun v => M.pure (Out.val v)) s).2 = s
+      unfold M.bind M.pure
+      cases hr : sysPropGetScaled i k ix s with
+      | mk r s' =>
+        rw [hr] at h1
+        cases r <;> exact h1
+  · intro v' hv'
+    obtain ⟨v, h1, h2⟩ := sysPropGetScaled_value i k ix s v' hv'
+    exact ⟨v, h1, h2, (cartToRel_shape _ _ _ h2).1⟩
+
+/-- **reads do not write / copies do not alias (`atoms_prop(index=…, scale=True)`)** — on a state satisfying the
+    invariant, for EVERY index form (int, slice — also one covering two or more atoms, where `atoms[index]` holds
+    views —, list, mask, absent) and every outcome: every object that existed reads exactly what it read before
+    (the assignment `newatoms.pos = …` lands in the copy, never in the system's own array), the systems are
+    unchanged; and a returned object shares memory with no array of any object that existed. -/
+theorem sysPropGetAtomsScaled_fresh_unchanged (s : State) (h : Inv s) (i : Nat) (ix : Option Index)
+    (hi : i < s.syss.length) :
+    (∀ o, o < s.objs.length → ((sysPropGetAtomsScaled i ix s).2).obj o = s.obj o ∧
+      ∀ p ∈ (s.obj o).props, arrVal (sysPropGetAtomsScaled i ix s).2 p.arr = arrVal s p.arr) ∧
+    (sysPropGetAtomsScaled i ix s).2.syss = s.syss ∧
+    ∀ o', (sysPropGetAtomsScaled i ix s).1 = .ok o' →
+      ∀ p' ∈ ((sysPropGetAtomsScaled i ix s).2.obj o').props, ∀ o, ∀ p ∈ (s.obj o).props,
+        sharesMem (sysPropGetAtomsScaled i ix s).2 p'.arr p.arr = false := by
+  obtain ⟨⟨κ, hinv⟩, hb⟩ := h
+  have hy : s.sys i ∈ s.syss := by
+    simp only [State.sys, List.getElem?_eq_getElem hi, Option.getD_some]
+    exact List.getElem_mem hi
+  have hat := (hinv.syss _ hy).1
+  have := sysPropGetAtomsScaled_frame hinv hb i ix hat
+  unfold Post at this
+  obtain ⟨hf, hfr⟩ := this
+  refine ⟨?_, hf.2.2, ?_⟩
+  · intro o ho
+    refine ⟨hf.2.1 o ho, ?_⟩
+    intro p hp
+    have hp0 := hinv.obj_props o p hp
+    have hbuf := hf.1 p.arr.buf hp0.valid.1
+    simp only [arrVal, arrDt, arrTrail, arrRows, hbuf]
+  · intro o' ho'
+    exact (frame_fresh_meaning s _ ⟨⟨κ, hinv⟩, hb⟩ o' hf (hfr o' ho')).2
+
+/-- **`copy.deepcopy(system)`** is `Atoms.__deepcopy__` on the system's atoms (values and freshness:
+    `refines_deepcopy`, `deepcopy_fresh`) plus a new system that carries the box, the `pbc` and the STORED
+    `symbols` / `masses` tuples of the original, bound to the copied atoms; nothing else changes. -/
+theorem sysDeepcopy_spec (s : State) (i a j : Nat) (s' : State) (h : sysDeepcopy i s = (.ok (a, j), s')) :
+    ∃ s1, deepcopy (s.sys i).atoms s = (.ok a, s1) ∧ j = s1.syss.length ∧
+      s' = { s1 with syss := s1.syss ++ [{ s.sys i with atoms := a }] } := by
+  unfold sysDeepcopy at h
+  change M.bind getS _ s = _ at h
+  simp only [M.bind, getS] at h
+  change M.bind (deepcopy (s.sys i).atoms) _ s = _ at h
+  simp only [M.bind] at h
+  cases hd : deepcopy (s.sys i).atoms s with
+  | mk r s1 =>
+    rw [hd] at h
+    cases r with
+    | error e => simp at h
+    | ok a' =>
+      simp only at h
+      change M.bind (pushSys _) _ s1 = _ at h
+      simp only [M.bind, pushSys] at h
+      change (Except.ok (a', s1.syss.length), _) = _ at h
+      injection h with h1 h2
+      injection h1 with h1
+      injection h1 with ha hj
+      subst ha
+      exact ⟨s1, rfl, hj.symm, h2.symm⟩
+
 /-! ## non-vacuity: concrete histories of the model (`K := Rat`) on which the hypotheses hold -/
 
 instance {α : Type} [DecidableEq α] : DecidableEq (Except Err α) := fun a b =>
@@ -1017,5 +1112,28 @@ example : output (step exG (.symbolsSet 0 [some "Al", some "Ni", some "X", some 
 example : output exG (.sysAtypes 0) = .ok (.nats [1, 2, 3, 4]) := by decide +kernel
 example : output exG (.massesSet 0 [some 1, some 2, some 3, some 4]) = .ok .unit := by decide +kernel
 example : output exG (.massesSet 0 [some 1, some 2, some 3, some 4, some 5]) = .error .value := by decide +kernel
+
+/-- scaled reads on a box that is not the unit cube: `a = (2,0,0)`, `b = (1,4,0)`, `c = (0,0,1/2)`, origin `(1,0,0)`. -/
+def exBox : Box Rat := ⟨⟨⟨2, 0, 0⟩, ⟨1, 4, 0⟩, ⟨0, 0, 1/2⟩⟩, ⟨1, 0, 0⟩⟩
+def exSc : State := [exNew, .mkSys 0 exBox [true, true, true] (some [some "Al"]) none].foldl step init
+def exScRead : Op := .sysPropGetAtomsScaled 0 (some (.slice (some 0) (some 2) none))
+
+example : Inv exSc := inv_reachable _
+-- the slice covers two atoms (`atoms[0:2]` holds views of the system's arrays); the read returns object 2 …
+example : output exSc exScRead = .ok (.obj 2) := by decide +kernel
+-- … whose positions are box-relative …
+example : (propGet 2 "pos" none (step exSc exScRead)).1
+    = .ok ⟨.flt, [2, 3], [.flt (-1/2), .flt 0, .flt 0, .flt (-1/8), .flt (1/4), .flt 2]⟩ := by decide +kernel
+-- … while the system's own Cartesian positions are what they were (`sysPropGetAtomsScaled_fresh_unchanged`)
+example : (propGet 0 "pos" none (step exSc exScRead)).1 = (propGet 0 "pos" none exSc).1 := by decide +kernel
+example : output exSc (.sysPropGetScaled 0 "pos" (some (.int (-2))))
+    = .ok (.val ⟨.flt, [3], [.flt (-1/8), .flt (1/4), .flt 2]⟩) := by decide +kernel
+example : output exSc (.sysPropGetScaled 0 "q" (some (.int 0))) = .error .index := by decide +kernel
+example : output exSc (.sysPropGetScaled 0 "q" (some (.slice none (some 2) none))) = .error .value := by decide +kernel
+example : step exSc (.sysPropGetScaled 0 "pos" none) = exSc := (sysPropGetScaled_reads_only false exSc 0 "pos" none).1
+-- deepcopy of the system: stored tuples copied as stored
+example : output exSc (.sysDeepcopy 0) = .ok (.objSys 1 1) := by decide +kernel
+example : ((step exSc (.sysDeepcopy 0)).sys 1).symbols = (exSc.sys 0).symbols ∧
+    ((step exSc (.sysDeepcopy 0)).sys 1).atoms = 1 := by decide +kernel
 
 end Atomman.C06
